@@ -305,6 +305,9 @@ func ConfusableRunes(chars string) []rune {
 			add(f)
 		}
 		add(rune(c) + 0xFEE0) // full-width form
+		add(0x10000 | rune(c)) // beyond the basic plane, low byte and low 16 bits equal to the character
+		add(0x1F600 | rune(c))
+		add(0x10FF00 | rune(c))
 	}
 	for _, r := range []rune{0x017F, 0x212A, 0x0130, 0x0131, 0x2160, 0x216F, 0x2170, 0x00A0, 0x2028, 0xFEFF, 0x200B, 0x0660, 0x06F0, 0xFF10, 0x2212, 0x2010, 0x2024, 0xFE52, 0x10000 + 'a', 0x1D7CE} {
 		add(r)
